@@ -29,7 +29,7 @@ ASSUMPTIONS = ["MPI_Abort semantics: ranks blocked in a collective after another
 MIN_MONITOR = {"mon.optimized_world": 300, "mon.faulted_programs": 1500, "mon.ill_formed": 1000, "mon.diagnosed": 800,
                "mon.well_formed_faulted": 20, "mon.fault_kinds": 11}
 SHARD_TIMEOUT = {"quick": 900, "thorough": 7200}
-N_PROGRAMS = {"quick": 160, "thorough": 2600}
+N_PROGRAMS = {"quick": 320, "thorough": 2600}
 N_PAIRS = {"quick": 6, "thorough": 12}
 EXHAUSTIVE = {"quick": True, "thorough": True}
 DIAGNOSTICS = ("DistributedPartitionVerificationError", "DuplicateSendError", "DuplicateRecvError",
